@@ -18,6 +18,7 @@ FIXES = {
     'F6': ('e087858', ['C14', 'C02']),
     'F7': ('540a981', ['C11']),
     'F8': ('0fc7aaa', ['C15']),
+    'F9': ('e7c63eb', ['C07']),
 }
 
 
